@@ -21,6 +21,11 @@ def all (p : Nat → β → Bool) : NatTree β → Bool
   | leaf => true
   | node l k v r => l.all p && p k v && r.all p
 
+/-- a tree of closed ranges `[k, v]`: is `n` inside one of them? -/
+def rangeMem : NatTree Nat → Nat → Bool
+  | leaf, _ => false
+  | node l lo hi r, n => if n < lo then rangeMem l n else if hi < n then rangeMem r n else true
+
 def size : NatTree β → Nat
   | leaf => 0
   | node l _ _ r => l.size + 1 + r.size
